@@ -159,6 +159,11 @@ def main(argv=None):
                 known_hit.append(key)
             else:
                 new.append((rank, key, what, point, count))
+        dump = os.environ.get('VERIF_DUMP')
+        if dump:   # developer aid for triage; never used by registered commands
+            with open(dump, 'w') as f:
+                json.dump({k: {'what': v[0], 'count': v[3], 'known': (pid, k) in known} for k, v in res.violations.items()},
+                          f, indent=1, sort_keys=True, default=str)
         # confirm every new violation by re-executing its point (determinism / replayability)
         confirmed = []
         for rank, key, what, point, count in sorted(new, key=lambda t: (t[0], t[1]))[:200]:
